@@ -237,6 +237,22 @@ def enum_long(tier, shard, nshards):
         rises = [t + period // 4 for t in troughs if t + period // 4 < n and t + period // 4 < peaks[-1]] if mode != 1 else None
         decays = [p + period // 4 for p in peaks if p + period // 4 < max(troughs)] if mode != 2 else None
         yield {'n': n, 'peaks': peaks, 'troughs': troughs, 'rises': rises, 'decays': decays, 'variant': 0, 'long': True}
+    # very slow rhythms at high sampling rates: single flanks of 1e5 .. 4e5 samples (phase steps of a few 1e-6 rad per sample)
+    slow = [(2 ** 20 + 999, 260000, 2), (900001, 420000, 1)] if tier == 'quick' else [(2 ** 20 + 999, 260000, 2), (900001, 420000, 1), (2 ** 21, 800000, 0), (1500000, 130000, 2)]
+    for i, (n, period, mode) in enumerate(slow):
+        if i % nshards != shard:
+            continue
+        peaks = list(range(17, n, period))
+        troughs = [p + period // 2 for p in peaks if p + period // 2 < n]
+        rises = [t + period // 4 for t in troughs if t + period // 4 < peaks[-1]] if mode != 1 else None
+        decays = [p + period // 4 for p in peaks if p + period // 4 < max(troughs)] if mode != 2 else None
+        yield {'n': n, 'peaks': peaks, 'troughs': troughs, 'rises': rises, 'decays': decays, 'variant': 0, 'long': True}
+    if tier == 'thorough' and shard == nshards - 1:
+        # beyond 2**24 samples (single-precision sample counters stop being exact there)
+        n, period = 2 ** 24 + 3000, 500
+        peaks = list(range(2 ** 24 - 20 * period + 3, n, period))
+        troughs = [p + period // 2 for p in peaks if p + period // 2 < n]
+        yield {'n': n, 'peaks': peaks, 'troughs': troughs, 'rises': None, 'decays': [p + period // 4 for p in peaks if p + period // 4 < max(troughs)], 'variant': 0, 'long': True}
 
 
 PARTS = [
